@@ -51,17 +51,26 @@ def _pair_failures(spec, nb, per, ref, o1, refp, o2, Q, t, label):
         n1, n2 = nb[a][:2]
         w, d1 = unit(ref[n2] - ref[a]), ref[n1] - ref[a]
         margin = np.linalg.norm(np.cross(w, d1)) / np.linalg.norm(d1)
-        if margin >= 1e-3:
+        if margin > 1.5e-5:
+            # not collinear: the plane of the three atoms fixes the frame, full equivariance is demanded - unless the
+            # geometry is so ill conditioned that plain rounding of the moved coordinates (|x| eps / (bond * sin phi))
+            # could itself reach the tolerance
+            lever = np.linalg.norm(o1[k] - ref[a])
+            cond = 2 * 2.3e-16 * max(1.0, np.abs(refp).max()) / (min(np.linalg.norm(d1), np.linalg.norm(ref[n2] - ref[a])) * margin)
+            if cond * lever > 0.3 * TOL:
+                continue
             err = np.abs(o2[k] - (Q @ o1[k] + t)).max()
             if err > TOL:
-                bad.append("%s: mapped atom %d (anchor %d): map(R ref+t) - (R map(ref)+t) = %.3g" % (label, k, a, err))
-        elif margin <= 1e-9:
+                bad.append("%s: mapped atom %d (anchor %d, sin of the frame angle %.3g): map(R ref+t) - (R map(ref)+t) = %.3g" % (
+                    label, k, a, margin, err))
+        elif margin < 6e-8:
             i1 = axis_invariants(o1[k], ref[a], w)
             i2 = axis_invariants(o2[k], refp[a], unit(refp[n2] - refp[a]))
             if np.abs(i1 - i2).max() > TOL:
                 bad.append("%s: collinear anchor %d: (distance, axial coordinate, distance from axis) of mapped atom %d: %s -> %s" % (
                     label, a, k, i1.tolist(), i2.tolist()))
-        # 1e-9 < margin < 1e-3: neither "generic" nor "exactly collinear"; the property text defines no expectation
+        # 6e-8 <= margin <= 1.5e-5: the band around the code's own collinearity threshold (1e-6) where rounding may decide
+        # the branch (the K-indeterminate band); nothing is demanded there
     return bad
 
 
@@ -124,7 +133,8 @@ def motion_failures(spec, plan):
 
 IDENT = {"Q": np.eye(3).tolist(), "t": [0.0, 0.0, 0.0]}
 C02_PATTERNS = [["copy0", "copy"], ["copy0", "copy"], ["object", "copy", "object"], ["object", "inplace", "object", "copy"],
-                ["copy0", "copy", "object", "inplace", "restore"], ["object", "copy", "copy", "object"]]
+                ["copy0", "copy", "object", "inplace", "restore"], ["object", "copy", "copy", "object"],
+                ["copy0", "deepcopy"], ["object", "separate", "deepcopy"]]
 
 
 def gen_plan(rs, pattern=None, spec=None):
@@ -188,8 +198,32 @@ CORPUS = [
 ]
 
 
+def _witness_c02_4():
+    """seeded change C02-4 (collinearity tested on the cosine): three beads A-B-C, |AB| = 0.30, |BC| = 0.35 nm, generic
+    orientation, angle A-B-C = 150, 179, 179.95 (NOT collinear: sin = 8.7e-4), 179.999 and 180 degrees; four target atoms
+    around B; five rigid motions in one call sequence"""
+    b = np.array([2.0, 3.0, 1.5])
+    u = np.array([2.0, -1.0, 2.0]) / 3.0
+    w = np.array([1.0, 2.0, 0.0]) / np.sqrt(5.0)
+    tgt = [[1.95, 3.10, 1.40], [2.10, 2.90, 1.65], [2.05, 3.15, 1.55], [1.90, 2.95, 1.45]]
+    rng = np.random.RandomState(7)
+    out = []
+    for ang in (150.0, 179.0, 179.95, 179.999, 180.0):
+        th = np.radians(ang)
+        da = -u if ang == 180.0 else np.cos(th) * u + np.sin(th) * w
+        ref = [(b + 0.30 * da).tolist(), b.tolist(), (b + 0.35 * u).tolist()]
+        for sc in (1.0, 0.5):
+            plan = [dict(IDENT, how="copy")]
+            for _ in range(5):
+                plan.append({"how": "copy", "Q": E.random_rotation(rng).tolist(), "t": rng.uniform(-20, 20, 3).tolist()})
+            out.append(({"n_ref": 3, "graph": "chain", "geom": "nearlinear", "bonds": [[0, 1], [1, 2]], "ref": ref,
+                         "tgt": tgt, "s": sc}, plan))
+    return out
+
+
 def _corpus_items(ctx):
     items = [(spec, single_plan(Q, t)) for spec in CORPUS for Q in _ROTS for t in ([0.0, 0.0, 0.0], [12.5, -40.0, 3.25])]
+    items += _witness_c02_4()
     items += [(spec, sequence_plan(_ROTS[0], [12.5, -40.0, 3.25])) for spec in CORPUS]
     items += [(spec, single_plan(_ROTS[0], [12.5, -40.0, 3.25])) for spec in E.shipped_specs(ctx.n(40, 10 ** 6))]
     return items
@@ -229,7 +263,7 @@ def oracle(ctx, scale):
     S = ctx.cov["S"]
     n = ctx.n(400, 6000) * scale
     geoms = ["generic", "generic", "generic", "partial", "collinear_decimal", "collinear_axis", "collinear_diag",
-             "collinear_int", "grid", "small1", "small2", "small2"]
+             "collinear_int", "grid", "small1", "small2", "small2", "nearlinear", "nearlinear", "elastic"]
     fails = 0
     hist, pats = {}, {}
     ncalls = 0
@@ -271,8 +305,10 @@ def finish(ctx):
         "full equivariance is proved for anchors in the regular branch of calcule_base (relative collinearity > 1e-6, a condition "
         "proved rotation invariant over R); for the fallback branch and for 1-/2-atom references the three invariants are proved "
         "for every value of the random completion points",
-        "the S oracle treats an anchor as generic when its collinearity margin is >= 1e-3 and as exactly collinear when <= 1e-9; "
-        "in between the property text defines no expectation and nothing is demanded",
+        "the S oracle demands full equivariance for every anchor whose collinearity margin (sine of the frame angle) is above "
+        "1.5e-5 and the three axis invariants below 6e-8; in the band [6e-8, 1.5e-5] around the code's own 1e-6 threshold "
+        "(where rounding may decide the branch; the K-indeterminate band) nothing is demanded; a demand is also skipped when "
+        "plain coordinate rounding, amplified by 1/(bond length * sine), could reach 0.3 of the tolerance",
         "np.random.rand returns some vector; the one-atom theorem needs the second draw to be non-zero (p0 + rand2 != p0)",
         "the argument of the call has the bond graph of the construction-time reference (same species)",
     ]
